@@ -516,7 +516,15 @@ def rich_prog(
                 cx.features.add("const-in-return")
             else:
                 items.append(draw(st.sampled_from(pool)))
-        if shape == "T":
+        if shape == "T" and not inner and draw(st.integers(0, 4)) == 0:
+            ret, rtype = ["NT", [e for e, _ in items]], Ty("tup", [t for _, t in items], desc=True)
+            cx.features.add("ret-namedtuple")
+        elif shape == "D" and not inner and draw(st.integers(0, 4)) == 0:
+            keys = [f"r{i}" for i in range(n)]
+            ret = ["OD", {k_: e for k_, (e, _) in zip(keys, items)}]
+            rtype = Ty("dict", {k_: t for k_, (_, t) in zip(keys, items)}, desc=True)
+            cx.features.add("ret-ordereddict")
+        elif shape == "T":
             ret, rtype = ["T", [e for e, _ in items]], Ty("tup", [t for _, t in items], desc=True)
         elif shape == "L":
             ret, rtype = ["L", [e for e, _ in items]], Ty("list", [t for _, t in items], desc=True)
